@@ -384,27 +384,53 @@ func TestZZVerifC06(t *testing.T) {
 // back). It is tagged in violation keys because consul only refreshes the indexes of the check's NEW
 // owner (see known_findings.json), which is a defect of its own.
 func rebound(s *state.Store, c gen.Cmd) string {
-	if c.Class != "register" {
+	if c.Class != "register" && c.Class != "txn" {
 		return ""
 	}
 	i := strings.Index(c.Desc, "{")
 	if i < 0 {
 		return ""
 	}
-	var req struct {
-		Node   string
-		Check  *struct{ CheckID, ServiceID string }
-		Checks []struct{ CheckID, ServiceID string }
-	}
-	if json.Unmarshal([]byte(c.Desc[i:]), &req) != nil {
-		return ""
-	}
-	cs := req.Checks
-	if req.Check != nil {
-		cs = append(cs, *req.Check)
+	type chk struct{ Node, CheckID, ServiceID string }
+	var cs []chk
+	if c.Class == "register" {
+		var req struct {
+			Node   string
+			Check  *chk
+			Checks []chk
+		}
+		if json.Unmarshal([]byte(c.Desc[i:]), &req) != nil {
+			return ""
+		}
+		for _, k := range req.Checks {
+			k.Node = req.Node
+			cs = append(cs, k)
+		}
+		if req.Check != nil {
+			k := *req.Check
+			k.Node = req.Node
+			cs = append(cs, k)
+		}
+	} else {
+		var req struct {
+			Ops []struct {
+				Check *struct {
+					Verb  string
+					Check chk
+				}
+			}
+		}
+		if json.Unmarshal([]byte(c.Desc[i:]), &req) != nil {
+			return ""
+		}
+		for _, op := range req.Ops {
+			if op.Check != nil && (op.Check.Verb == "set" || op.Check.Verb == "cas") {
+				cs = append(cs, op.Check.Check)
+			}
+		}
 	}
 	for _, k := range cs {
-		if _, e, _ := s.NodeCheck(req.Node, types.CheckID(k.CheckID), nil, ""); e != nil && e.ServiceID != k.ServiceID {
+		if _, e, _ := s.NodeCheck(k.Node, types.CheckID(k.CheckID), nil, ""); e != nil && e.ServiceID != k.ServiceID {
 			return ":check-rebound-to-other-service"
 		}
 	}
